@@ -7,7 +7,7 @@ from . import common
 
 LEVEL = "exploration"
 RULE = ("seeded random datasets (<=5 interleaved groups, null keys, 1-3 keys) x head/tail/nth with n from 0 to beyond the "
-        "largest group (negative n for nth) x 1-D and multi-column values carrying a unique row id x arbitrary input index "
+        "largest group (negative n for nth) x 1-D and multi-column values carrying a unique row id (second column float64/float32/int64; ids also beyond 2**53 for 64-bit integers) x arbitrary input index "
         "(default, permuted, duplicated, string); plus large single-group blocks of 32767/32768/65535/65536/70000/200000 "
         "rows. keep_input_index=True throughout. Each returned row is identified through its unique value and compared "
         "with the model's positions: same set of rows, each once, original index label, values bit-equal, original "
